@@ -681,6 +681,14 @@ static void run_vec_case(Jit& jit, const VecCase& vc, const Level& lvl, const VM
       int W = 16 << vc.w;
       vj::W w; w.beginObj(); w.kv("t", "obs"); w_key(w, ck);
       w.kv("hash", (long long)b.hash).kv("sig", sig);
+      if (starts(vc.name, "kRoundHalfUp")) {
+        // -0.5 is the one input on which the documented rounding rule and the implemented formula differ (see KNOWN findings)
+        bool nh = false;
+        for (int i = 0; i < (m.scalar ? m.lane : W); i += m.lane) {
+          if (m.lane == 4) { float f; memcpy(&f, in.b + kOffA + i, 4); nh |= f == -0.5f; } else { double f; memcpy(&f, in.b + kOffA + i, 8); nh |= f == -0.5; }
+        }
+        if (nh) w.kv("tag", "neghalf");
+      }
       w.bytes("a", in.b + kOffA, W);
       if (vc.kind != "vv" && vc.kind != "vvi") w.bytes("b", in.b + kOffB, W);
       if (vc.kind == "vvvv") w.bytes("c", in.b + kOffC, W);
@@ -725,6 +733,14 @@ static void sweep_vec(Jit& jit, const char* kind, const std::vector<OpName<E>>& 
 // ---------------------------------------------------------------------------------------------------------------------
 int main(int argc, char** argv) {
   if (argc < 2) { fprintf(stderr, "usage: uniops observe|replay|life|dump ...\n"); return 2; }
+  if (kVV.size() != size_t(UniOpVV::kMaxValue) + 1 || kVVI.size() != size_t(UniOpVVI::kMaxValue) + 1 || kVVV.size() != size_t(UniOpVVV::kMaxValue) + 1 ||
+      kVVVI.size() != size_t(UniOpVVVI::kMaxValue) + 1 || kVVVV.size() != size_t(UniOpVVVV::kMaxValue) + 1 || kVM.size() != size_t(UniOpVM::kMaxValue) + 1 ||
+      kMV.size() != size_t(UniOpMV::kMaxValue) + 1 || kVR.size() != size_t(UniOpVR::kMaxValue) + 1 || kRRR.size() != size_t(UniOpRRR::kMaxValue) + 1 ||
+      kRR.size() != size_t(UniOpRR::kMaxValue) + 1) {
+    fprintf(stderr, "enumerators of uniop.h changed: regenerate harness/lib_uniops_names.h (python3 checks/x07gen.py names)\n");
+    return 3;
+  }
+  for (size_t i = 0; i < kVVV.size(); i++) if (size_t(kVVV[i].op) != i) { fprintf(stderr, "name table out of order\n"); return 3; }
   init_levels();
   install_signals();
   std::string mode = argv[1];
